@@ -289,7 +289,8 @@ impl A3 {
             Kind::Hook { cs, .. } => *cs as i64,
             _ => 65536,
         };
-        let allowance = 65536 + 2 * cs_allow + 2 * fp.len() as i64;
+        // only allocations made by kestrel itself are counted (seam callbacks pause the accounting)
+        let allowance = 65536 + 2 * cs_allow;
         if mem.peak > base.peak + allowance {
             out.violations.push(viol("C09", "memory_raised_by_untrusted_field", format!("decrypting the damaged file peaked at {} live bytes; the authentic file needs {} (faults {:?})", mem.peak, base.peak, &s.faults[..s.faults.len().min(3)])));
         }
